@@ -9,34 +9,34 @@ import (
 )
 
 const (
-	kLoggerLog     = "common.transactionLog.log"
-	kPLogAdd       = "sop.TransactionPriorityLog.Add"
-	kPLogRemove    = "sop.TransactionPriorityLog.Remove"
-	kPLogGet       = "sop.TransactionPriorityLog.Get"
-	kPriorityRB    = "common.transactionLog.priorityRollback"
-	kDoPriorityRBs = "common.transactionLog.doPriorityRollbacks"
-	kTLRollback    = "common.transactionLog.rollback"
-	kTxUnlockNodes = "common.Transaction.unlockNodesKeys"
-	kTxUnlockItems = "common.Transaction.unlockTrackedItems"
-	kTxDelValues   = "common.Transaction.deleteTrackedItemsValues"
-	kTxDelObsolete = "common.Transaction.deleteObsoleteEntries"
-	kNRBrbAdded    = "common.nodeRepositoryBackend.rollbackAddedNodes"
-	kNRBrbRemoved  = "common.nodeRepositoryBackend.rollbackRemovedNodes"
-	kNRBrbUpdated  = "common.nodeRepositoryBackend.rollbackUpdatedNodes"
-	kNRBrbNewRoot  = "common.nodeRepositoryBackend.rollbackNewRootNodes"
+	kLoggerLog      = "common.transactionLog.log"
+	kPLogAdd        = "sop.TransactionPriorityLog.Add"
+	kPLogRemove     = "sop.TransactionPriorityLog.Remove"
+	kPLogGet        = "sop.TransactionPriorityLog.Get"
+	kPriorityRB     = "common.transactionLog.priorityRollback"
+	kDoPriorityRBs  = "common.transactionLog.doPriorityRollbacks"
+	kTLRollback     = "common.transactionLog.rollback"
+	kTxUnlockNodes  = "common.Transaction.unlockNodesKeys"
+	kTxUnlockItems  = "common.Transaction.unlockTrackedItems"
+	kTxDelValues    = "common.Transaction.deleteTrackedItemsValues"
+	kTxDelObsolete  = "common.Transaction.deleteObsoleteEntries"
+	kNRBrbAdded     = "common.nodeRepositoryBackend.rollbackAddedNodes"
+	kNRBrbRemoved   = "common.nodeRepositoryBackend.rollbackRemovedNodes"
+	kNRBrbUpdated   = "common.nodeRepositoryBackend.rollbackUpdatedNodes"
+	kNRBrbNewRoot   = "common.nodeRepositoryBackend.rollbackNewRootNodes"
 	kNRBremoveNodes = "common.nodeRepositoryBackend.removeNodes"
-	kRemoveLogs    = "common.transactionLog.removeLogs"
-	kTLogRemove    = "sop.TransactionLog.Remove"
+	kRemoveLogs     = "common.transactionLog.removeLogs"
+	kTLogRemove     = "sop.TransactionLog.Remove"
 )
 
 func init() {
 	register("C08", propMeta{
-		Explanation: "Decides the write ordering that crash recovery depends on: (R1) every commit step with a persistent effect is logged before it acts (commitUpdatedNodes, which logs the ids it allocated, logs immediately after and from the action's own result), on first and on every repeated execution; (R2) in phase1Commit the priority log of handle pre-images is written before activateInactiveNodes/touchNodes mutate those handles in place, its payload is built from exactly the slices those two calls receive, and it may be skipped only when both slices are empty; (R3) priorityRollback and doPriorityRollbacks write the logged pre-images back and remove the priority log only after the registry write succeeded, and Phase2Commit's failure path restores pre-images (or removes the priority log) before the ordinary rollback; (R4) the file transaction log flushes every record before reporting success and the priority log is written through the checksummed WriteFile path.",
+		Explanation:  "Decides the write ordering that crash recovery depends on: (R1) every commit step with a persistent effect is logged before it acts (commitUpdatedNodes, which logs the ids it allocated, logs immediately after and from the action's own result), on first and on every repeated execution; (R2) in phase1Commit the priority log of handle pre-images is written before activateInactiveNodes/touchNodes mutate those handles in place, its payload is built from exactly the slices those two calls receive, and it may be skipped only when both slices are empty; (R3) priorityRollback and doPriorityRollbacks write the logged pre-images back and remove the priority log only after the registry write succeeded, and Phase2Commit's failure path restores pre-images (or removes the priority log) before the ordinary rollback; (R4) the file transaction log flushes every record before reporting success and the priority log is written through the checksummed WriteFile path.",
 		DoesNotCover: "Crash points are not enumerated and recovery is not executed; durability below the OS page cache (no fsync anywhere in the code) is assumed, not checked; torn registry blocks are C22.",
-		Assumptions: []string{"process death, not power loss: a completed write(2) survives"},
+		Assumptions:  []string{"process death, not power loss: a completed write(2) survives"},
 	}, runC08)
 	register("C07", propMeta{
-		Explanation: "Decides undo coverage and lock release on every error exit: (R1) the table step -> {log site in phase1Commit/NewBtree, guarded undo block in the live rollback, guarded undo block in the dead-transaction log replay} is extracted from the code and must be complete for every step with a persistent effect, each undo calling the matching undo function; (R2) the live-rollback guard of a step whose action performs two persistent effects must also cover the state in which only the first effect happened; (R3) rollback releases node-key locks on every path and item locks once they may have been taken; a failed node-key Lock/DualLock attempt in phase1Commit is followed by Unlock before sleeping or retrying; (R4) log removal is on every terminal path.",
+		Explanation:  "Decides undo coverage and lock release on every error exit: (R1) the table step -> {log site in phase1Commit/NewBtree, guarded undo block in the live rollback, guarded undo block in the dead-transaction log replay} is extracted from the code and must be complete for every step with a persistent effect, each undo calling the matching undo function; (R2) the live-rollback guard of a step whose action performs two persistent effects must also cover the state in which only the first effect happened; (R3) rollback releases node-key locks on every path and item locks once they may have been taken; a failed node-key Lock/DualLock attempt in phase1Commit is followed by Unlock before sleeping or retrying; (R4) log removal is on every terminal path.",
 		DoesNotCover: "That the undo functions restore byte-identical state is not decided (C10 decides which ids they may delete); fault schedules are not executed.",
 	}, runC07)
 }
@@ -370,9 +370,9 @@ func dominatedByNilPayload(g *Graph, n *GNode) bool {
 // ---- C07 -------------------------------------------------------------------------------
 
 type undoRow struct {
-	step    string
-	undo    []string // undo function keys (any of)
-	liveOps []token.Token
+	step       string
+	undo       []string // undo function keys (any of)
+	liveOps    []token.Token
 	twoEffects bool
 }
 
